@@ -138,6 +138,18 @@ open CoreDhcp
 #print axioms C17_sleep6
 #print axioms C17_inrange_mtu
 #print axioms C17_inrange_seconds
+#print axioms C17_mtu_accepted_in_range
+#print axioms C17_leasetime_accepted_in_range
+#print axioms C17_ipv6only_accepted_in_range
+#print axioms C17_accepted_in_range
+#print axioms C17_accepted_exact
+#print axioms C17_exact_iff_in_range
+#print axioms C17_mtu4_accepted
+#print axioms C17_leasetime4_accepted
+#print axioms C17_ipv6only4_accepted
+#print axioms C17_D22_mtu_refuted
+#print axioms C17_D23_leasetime_refuted
+#print axioms C17_D24_ipv6only_refuted
 #print axioms C17_D17_prefix_refuted
 #print axioms C11_builtin_preserve_mt
 #print axioms C12_builtin_preserve_mt
@@ -146,6 +158,9 @@ open CoreDhcp
 #print axioms C19_setup_wireOK
 #print axioms C19_setup_wireOK4
 #print axioms C19_staticroute_rejects_non_ipv4
+#print axioms C19_mtu_rejects_out_of_range
+#print axioms C19_leasetime_rejects_out_of_range
+#print axioms C19_ipv6only_rejects_out_of_range
 #print axioms C19_routes_roundtrip
 #print axioms C19_labels_roundtrip
 #print axioms C19_ips_roundtrip
